@@ -111,6 +111,23 @@ for _k, _v in ROUND6.items():
         _i = _t.rfind(" Sampling, not proof")
         CLAIMED[_k]["text"] = _t[:_i] + f" Round 6 (DESIGN §13.6): {_v}." + _t[_i:]
 
+ROUND7 = {
+ "C15": "restarts that prefer the node ending a cycle (with a power fraction other than one)",
+ "C06": "a state asked through the database interface after the run, histories asked of one Database object before and after a split that renames steps",
+ "C04": "2-D values on every other object of a class, lower-case cross-section types",
+ "C05": "texts ending in white space, dictionaries of equal size under differing keys",
+ "C14": "pools stocked by the blueprints (also without tracking), stationary-flag entries of two words, a discharge naming an incoming assembly from the core",
+ "C16": "a kept parameter with a new value must stay listed, kept arrays that move by a hair or hold trace values",
+ "C01": "the list a query returns is the caller's, copies and pickles of the whole core and reactor",
+ "C13": "displacement vectors on the copies",
+ "C02": "selections that name nothing present, a block taken out of the middle of an assembly",
+ "C03": "inner dimensions that start at zero and get a hot value, a linked multiplicity",
+}
+for _k, _v in ROUND7.items():
+    _t = CLAIMED[_k]["text"]
+    _i = _t.rfind(" Sampling, not proof")
+    CLAIMED[_k]["text"] = _t[:_i] + f" Round 7 (DESIGN §13.7): {_v}." + _t[_i:]
+
 PENDING_IDS = ["C01", "C02", "C03", "C04", "C05", "C12", "C13", "C14", "C16"]
 PENDING = {p: "check not built yet in this session (claimed in DESIGN.md; will move to checks when its oracle runs clean)" for p in PENDING_IDS if p not in CLAIMED}
 
